@@ -39,6 +39,11 @@ class Indenter(PostLex, ABC):
         # Tabs and spaces after the last newline. A newline token without a newline
         # (e.g. a comment at the end of the input) doesn't change the indentation.
         indent_str = token.rsplit('\n', 1)[1] if '\n' in token else ''
+        if indent_str.strip(' \t'):
+            # The last line of the token holds more than indentation (e.g. a comment that ends
+            # the input): it isn't a logical line, so it neither indents nor dedents.
+            return
+
         indent = indent_str.count(' ') + indent_str.count('\t') * self.tab_len
 
         if indent > self.indent_level[-1]:
